@@ -1,0 +1,25 @@
+//go:build verif
+
+package mavl
+
+import "sync/atomic"
+
+// Verification hook (build tag verif only): named delay points between critical sections of
+// MemSet/Commit, used by the C04 monitor to widen schedule windows. No-op unless a function is
+// installed with VerifBSetDelay.
+
+var verifBDelayFn atomic.Value // func(string)
+
+// VerifBSetDelay installs (or with nil removes) the delay-point callback.
+func VerifBSetDelay(f func(point string)) {
+	if f == nil {
+		f = func(string) {}
+	}
+	verifBDelayFn.Store(f)
+}
+
+func verifDelay(point string) {
+	if f, ok := verifBDelayFn.Load().(func(string)); ok && f != nil {
+		f(point)
+	}
+}
